@@ -802,6 +802,35 @@ func runC17(t *testing.T, seed int64, n int, out *Out) {
 		}
 	}
 
+	// ---- the same permissionless create messages aimed at objects that ALREADY exist (the base currency's listing, a
+	// governance-owned listing, listed oracle assets), with the other fields varied: judged - each must be refused and leave the
+	// store as it is, or it amounts to an update by someone who is not the authority
+	p.boot() // the noted messages above were accepted: start again from identical worlds
+	fresh = p.A.Accts[5]
+	for _, nm := range []sdk.Msg{
+		&aptypes.MsgAddEntry{Creator: fresh.Addr.String(), BaseDenom: "uusdc", Denom: "uusdc", Decimals: 6, DisplayName: "USDC", CommitEnabled: true},
+		&aptypes.MsgAddEntry{Creator: fresh.Addr.String(), BaseDenom: "uusdc", Denom: "umallory", Decimals: 18, DisplayName: "USDC", CommitEnabled: true, WithdrawEnabled: true},
+		&aptypes.MsgAddEntry{Creator: fresh.Addr.String(), BaseDenom: "uc17", Denom: "uc17x", Decimals: 9, DisplayName: "C17y"},
+		&aptypes.MsgAddEntry{Creator: fresh.Addr.String(), BaseDenom: "uatom", Denom: "ibc/0000000000000000000000000000000000000000000000000000000000000000", Decimals: 6, DisplayName: "ATOM"},
+		&oracletypes.MsgCreateAssetInfo{Creator: fresh.Addr.String(), Denom: "uusdc", Display: "USDX", BandTicker: "USDX", ElysTicker: "USDX", Decimal: 18},
+		&oracletypes.MsgCreateAssetInfo{Creator: fresh.Addr.String(), Denom: "uatom", Display: "ATOM", BandTicker: "ATOM", ElysTicker: "ATOM", Decimal: 6},
+		&oracletypes.MsgCreateAssetInfo{Creator: fresh.Addr.String(), Denom: "uc17", Display: "C17z", BandTicker: "C17z", ElysTicker: "C17z", Decimal: 9},
+	} {
+		r := p.probe(TxReq{Signer: fresh, Msgs: []sdk.Msg{nm}})
+		mod, name := c17SplitURL(sdk.MsgTypeURL(nm))
+		out.Line(J{"t": "c17.case", "id": 0, "kind": "existing", "module": mod, "msg": name, "url": sdk.MsgTypeURL(nm), "field": "Creator", "variant": "existingObject",
+			"signerKind": "fresh", "signer": fresh.Addr.String(), "fieldValue": fresh.Addr.String(), "gov": p.A.Gov, "code": r.Code, "log": clip(r.Log, 220),
+			"changed": r.Changed, "vb": c17ValidateBasic(nm), "blockErr": r.BlockErr, "body": c17MsgJSON(p.A, nm), "nontrivial": true})
+		if r.Code == 0 {
+			stats["existing/"+mod+"."+name+"/ACCEPTED"]++
+		} else {
+			stats["existing/"+mod+"."+name+"/refused"]++
+		}
+		if r.Code == 0 || len(r.Changed) > 0 {
+			p.boot()
+		}
+	}
+
 	// ---- part 2: owner-scoped messages, one fresh pair of worlds per message type
 	for i, sc := range c17OwnedTable {
 		sc := sc
